@@ -157,12 +157,41 @@ def model_eq(a, b):
 
 # ------------------------------------------------------------ values
 def mk_value(kind, tok, near=False):
+    """Menu value of a token.  Tokens may be decorated:
+    ['ulp', t]  a value differing from menu value t by a relative 3e-13
+                (sizes, angles, angular sizes: must compare UNEQUAL - only
+                pixel positions have a tolerance);
+    ['far', t]  a pixel position differing by a relative 1e-4 (outside the
+                documented 1e-5 tolerance: UNEQUAL);
+    near=True   a pixel position differing by a relative 2e-6 (inside the
+                tolerance: EQUAL, same token)."""
+    deco = None
+    if isinstance(tok, list):
+        deco, tok = tok[0], tok[1]
     r = gen.value_recipe(kind, tok)
     if near and kind == 'pixpos':
         r = dict(r)
         r['x'] = r['x'] * (1 + 2e-6) if r['x'] else 2e-9
         r['y'] = r['y'] * (1 - 2e-6) if r['y'] else -2e-9
-    return build(r)
+    if deco == 'far' and kind == 'pixpos':
+        r = dict(r)
+        r['x'] = r['x'] * (1 + 1e-4) if r['x'] else 1e-6
+    v = build(r)
+    if deco == 'ulp':
+        if kind == 'size':
+            v = v * (1 + 3e-13)
+        elif kind in ('asize', 'angle'):
+            v = v * (1 + 3e-13) if v.value else v + 3e-13 * v.unit
+    return v
+
+
+def decorate(rng, kind, tok):
+    """Sometimes turn a menu token into a boundary variant of it."""
+    if kind in ('size', 'asize', 'angle') and rng.chance(0.15):
+        return ['ulp', tok]
+    if kind == 'pixpos' and rng.chance(0.15):
+        return ['far', tok]
+    return tok
 
 
 def valid_variant(rng, kind, tok):
@@ -170,7 +199,7 @@ def valid_variant(rng, kind, tok):
     v = mk_value(kind, tok)
     import astropy.units as u
     from astropy.coordinates import Angle
-    c = rng.randrange(4)
+    c = rng.randrange(6)
     if kind == 'size':
         if c == 1:
             return np.float64(v)
@@ -178,11 +207,22 @@ def valid_variant(rng, kind, tok):
             return int(v)
         if c == 3:
             return np.float32(v) if float(np.float32(v)) == v else v
+        if c == 4 and float(v).is_integer():
+            return np.int64(v)
+        if c == 5 and float(v).is_integer():
+            return np.uint8(v)
     elif kind in ('angle', 'asize'):
+        from astropy.coordinates import Latitude, Longitude
         if c == 1:
             return Angle(v)
         if c == 2:
             return u.Quantity(v.value, v.unit, dtype=np.float64)
+        if c == 3 and abs(v.to_value(u.deg)) <= 90:
+            return Latitude(v)
+        if c == 4:
+            return Longitude(v) if kind == 'angle' or v.value > 0 else v
+        if c == 5:
+            return u.Quantity(np.float32(v.value), v.unit)
     elif kind == 'nvert':
         if c == 1:
             return np.int64(v)
@@ -219,19 +259,34 @@ def invalid_values(kind):
                 ('bare_float', 2.0), ('bare_int', 3),
                 ('non_angular', Q(2.0, 'm')), ('dimensionless', Q(2.0, '')),
                 ('array', Q([1.0, 2.0], 'deg')), ('str', 'abc'),
-                ('none', None), ('pix_quantity', Q(2.0, 'pix'))]
+                ('none', None), ('pix_quantity', Q(2.0, 'pix')),
+                ('angle_array', {'t': 'angle', 'v': [1.0, 2.0], 'u': 'deg'}),
+                ('angle_array1', {'t': 'angle', 'v': [1.0], 'u': 'arcsec'}),
+                ('angle_zero', {'t': 'angle', 'v': 0.0, 'u': 'deg'}),
+                ('angle_neg', {'t': 'angle', 'v': -2.0, 'u': 'arcmin'}),
+                ('array1', Q([1.0], 'deg'))]
     if kind == 'angle':
         return [('bare_float', 30.0), ('bare_int', 0),
                 ('non_angular', Q(30.0, 'm')), ('dimensionless', Q(1.0, '')),
                 ('array', Q([1.0, 2.0], 'deg')), ('str', '30deg'),
-                ('none', None), ('time', Q(3.0, 's'))]
+                ('none', None), ('time', Q(3.0, 's')),
+                ('angle_array', {'t': 'angle', 'v': [10.0, 20.0], 'u': 'deg'}),
+                ('angle_array1', {'t': 'angle', 'v': [10.0], 'u': 'deg'}),
+                ('angle_array2d', {'t': 'angle', 'v': [[1.0, 2.0], [3.0, 4.0]],
+                                   'u': 'deg'}),
+                ('array1', Q([30.0], 'deg')),
+                ('list_of_q', {'t': 'list', 'v': [Q(30.0, 'deg')]})]
     if kind == 'pixpos':
         return [('array', pixarr), ('array2d', pix2d), ('sky', skys),
+                ('array1', {'t': 'pix', 'x': [1.0], 'y': [2.0]}),
+                ('array0', {'t': 'pix', 'x': {'t': 'arr', 'v': []},
+                            'y': {'t': 'arr', 'v': []}}),
                 ('tuple', {'t': 'tuple', 'v': [1.0, 2.0]}), ('none', None),
                 ('float', 3.0), ('skyarr', skyarr),
                 ('list', {'t': 'list', 'v': [1.0, 2.0]})]
     if kind == 'skypos':
         return [('array', skyarr), ('pix', pixs),
+                ('array1', {'t': 'sky', 'lon': [10.0], 'lat': [20.0]}),
                 ('tuple', {'t': 'tuple', 'v': [10.0, 20.0]}), ('none', None),
                 ('float', 3.0), ('pixarr', pixarr),
                 ('quantity', Q([10.0, 20.0], 'deg'))]
@@ -653,16 +708,22 @@ class Machine:
                 desc[f] = mm.cls
             else:
                 kind = kinds[f]
-                same = rng.chance(0.2)
-                tok = S.model.tok[f] if same and isinstance(
-                    S.model.tok[f], int) else rng.randrange(
-                        gen.KIND_SIZES[kind])
+                same = rng.chance(0.4)
+                if same and isinstance(S.model.tok[f], int):
+                    # the same menu value, or a boundary variant of it
+                    tok = decorate(rng, kind, S.model.tok[f])
+                else:
+                    tok = decorate(rng, kind,
+                                   rng.randrange(gen.KIND_SIZES[kind]))
                 changes[f] = mk_value(kind, tok)
                 m.tok[f] = tok
                 desc[f] = tok
         # keep annuli ordered (an invalid combination is C17's business)
+        def _base(t):
+            return t[1] if isinstance(t, list) and t[0] in ('ulp', 'mut') \
+                else t
         for inner, outer in gen.ANNULUS_PAIRS.get(S.model.cls, []):
-            ti, to = m.tok[inner], m.tok[outer]
+            ti, to = _base(m.tok[inner]), _base(m.tok[outer])
             if not (isinstance(ti, int) and isinstance(to, int) and ti < to):
                 self.ev(src=a, changes=desc, outcome='skipped-unordered')
                 return
